@@ -36,6 +36,7 @@ type Contract struct {
 	Requires   []Clause
 	Ensures    []Clause
 	Assumes    []Clause // function-level assumptions (trusted)
+	SelfEns    []Clause // function literal: facts about the function value itself, assumed where the literal is evaluated (trusted)
 	GMod       []SExpr  // ghost state updated by an event of this call (applied at call sites only)
 	GEns       []Clause // definitional ghost updates (applied at call sites only, not proved in the body)
 	AllowPanic bool
@@ -49,6 +50,7 @@ type Contract struct {
 	Inline     bool // always inline at call sites (no modular contract)
 	Pure       bool // no heap effect (extern)
 	NoBody     bool // verify nothing, use at call sites only
+	NoFrame    bool // entry point whose frame is not specified (request handlers): no frame obligations; must not be called from code under contract
 	File       string
 	Line       int
 	Sig        string
@@ -88,6 +90,7 @@ type ContractTable struct {
 	Preds       map[string]*Pred
 	ModSets     map[string]*ModSet
 	Encapsulated map[string]bool
+	ConstMaps    []*ConstMap
 	Files       []string
 	Axioms      []Clause
 }
@@ -147,7 +150,7 @@ func (ct *ContractTable) parseFile(repo, file string) error {
 	keywords := map[string]bool{"func": true, "extern": true, "iface": true, "ghost": true, "ghostfield": true, "pred": true,
 		"requires": true, "ensures": true, "modifies": true, "serves": true, "loop": true, "call": true, "assume": true,
 		"trusted": true, "inline": true, "pure": true, "nobody": true, "axiom": true, "end": true,
-		"gmodifies": true, "gensures": true, "modset": true, "allowpanic": true, "encapsulated": true, "lensures": true}
+		"gmodifies": true, "gensures": true, "modset": true, "allowpanic": true, "encapsulated": true, "lensures": true, "constmap": true, "selfensures": true, "noframe": true}
 	for i, l := range lines {
 		t := strings.TrimSpace(l)
 		if !strings.HasPrefix(t, "//@") {
@@ -332,6 +335,33 @@ func (ct *ContractTable) parseFile(repo, file string) error {
 			}
 			ct.ModSets[ms.Name] = ms
 			cur = nil
+		case "constmap":
+			// constmap[Cxx] name = "k1", "k2", ...: the package-level map `name` is filled by the package
+			// initialiser with exactly these string keys and is not updated anywhere else in the package
+			cm := &ConstMap{PkgPath: pkgPath, File: file, Line: it.line, Src: c}
+			r := rest
+			if m := tagRe.FindStringSubmatch(r); m != nil {
+				for _, t := range strings.Split(m[1], ",") {
+					if t = strings.TrimSpace(t); t != "" {
+						cm.Tags = append(cm.Tags, t)
+					}
+				}
+				r = strings.TrimSpace(r[len(m[0]):])
+			}
+			k := strings.Index(r, "=")
+			if k < 0 {
+				return errf("constmap name = keys")
+			}
+			cm.Name = strings.TrimSpace(r[:k])
+			for _, part := range splitTopLevel(r[k+1:], ',') {
+				part = strings.TrimSpace(part)
+				if len(part) < 2 || part[0] != '"' || part[len(part)-1] != '"' {
+					return errf("constmap keys must be string literals")
+				}
+				cm.Keys = append(cm.Keys, part[1:len(part)-1])
+			}
+			ct.ConstMaps = append(ct.ConstMaps, cm)
+			cur = nil
 		case "encapsulated":
 			// encapsulated T: the fields of struct type T may only be accessed by methods of T
 			if ct.Encapsulated == nil {
@@ -362,6 +392,8 @@ func (ct *ContractTable) parseFile(repo, file string) error {
 				cur.NoBody = true
 			case "allowpanic":
 				cur.AllowPanic = true
+			case "noframe":
+				cur.NoFrame = true
 			case "gmodifies":
 				for _, part := range splitTopLevel(rest, ',') {
 					part = strings.TrimSpace(part)
@@ -380,6 +412,12 @@ func (ct *ContractTable) parseFile(repo, file string) error {
 					return errf("%v", err)
 				}
 				cur.GEns = append(cur.GEns, Clause{Kind: w, Tags: tags, Label: label, Expr: e, Src: src, File: file, Line: it.line})
+			case "selfensures":
+				tags, label, e, src, err := parseTagged(rest)
+				if err != nil {
+					return errf("%v", err)
+				}
+				cur.SelfEns = append(cur.SelfEns, Clause{Kind: w, Tags: tags, Label: label, Expr: e, Src: src, File: file, Line: it.line})
 			case "requires", "ensures", "assume", "lensures":
 				tags, label, e, src, err := parseTagged(rest)
 				if err != nil {
@@ -531,4 +569,13 @@ func splitTopLevel(s string, sep byte) []string {
 	}
 	out = append(out, s[last:])
 	return out
+}
+
+// ConstMap: a package-level map whose key set is fixed by the package initialiser.
+type ConstMap struct {
+	PkgPath, Name string
+	Keys          []string
+	Tags          []string
+	File, Src     string
+	Line          int
 }
